@@ -57,7 +57,7 @@ static const char *const s_kind_name[] = {"uint", "negint", "write_float", "writ
 enum {
     F_HEAD_BOUNDARY, F_FLOAT_INT, F_FLOAT_SINGLE, F_FLOAT_DOUBLE, F_NEAR_2P63, F_NEAR_FLTMAX, F_FLOAT_SPECIAL, F_GROWTH,
     F_STR_64K, F_DEPTH8, F_DEPTH32, F_INDEF_CONTAINER, F_INDEF_STRING, F_TAG, F_MAP, F_SKIP_NESTED, F_SKIP_AFTER_PEEK,
-    F_WRONG_POP, F_RESET_REUSE, F_POP_NO_PEEK, F_TIGHT, F_WIDE_COUNT, F_INSTREAM_SKIP, F_DEPTH64, F_1000_SKIPS, F_BIG_ENCODER
+    F_WRONG_POP, F_RESET_REUSE, F_POP_NO_PEEK, F_TIGHT, F_WIDE_COUNT, F_INSTREAM_SKIP, F_DEPTH64, F_1000_SKIPS, F_BIG_ENCODER, F_SELF_DESCRIBED_FIRST
 };
 static const char *const s_flag_names[] = {
     "int_head_width_boundary", "write_float_as_integer", "write_float_as_single", "write_float_as_double",
@@ -65,7 +65,8 @@ static const char *const s_flag_names[] = {
     "string_ge_64k", "nesting_ge_8", "nesting_ge_32", "indefinite_container", "indefinite_string", "tag", "map",
     "skip_nested_item", "skip_after_peek", "wrong_type_pop_refused", "encoder_reset_reuse", "pop_without_peek",
     "tight_fit_write_forced_growth", "count_head_ge_24", "in_stream_skip_then_decode", "nesting_eq_64",
-    "one_decoder_skipped_1000_or_more_items", "encoder_buffer_grown_past_64MiB"};
+    "one_decoder_skipped_1000_or_more_items", "encoder_buffer_grown_past_64MiB",
+    "tag_55799_as_first_item"};
 
 struct el {
     uint8_t kind;
@@ -616,7 +617,15 @@ static void gen_item(struct mon_rng *r, int depth) {
             gen_item(r, depth + 1);
         }
     } else if (pick < 86) {
-        emit_head(K_TAG, AWS_CBOR_TYPE_TAG, 6, mon_chance(r, 1, 2) ? mon_below(r, 6) : edge_u64(r), depth);
+        /* small tags, width boundaries, and tag numbers with a registered meaning (IANA): 55799 is the "self-described
+         * CBOR" magic d9 d9 f7, 24 embedded CBOR, 2/3 bignums, 32.. URIs and friends, 258 sets */
+        static const uint64_t REGISTERED[] = {0, 1, 2, 3, 4, 5, 21, 22, 23, 24, 32, 33, 34, 35, 36, 37, 55799, 55799, 55798, 55800, 258, 1001, 1004, 15309736};
+        unsigned tk = (unsigned)mon_below(r, 3);
+        uint64_t tagno = tk == 0 ? mon_below(r, 6) : tk == 1 ? edge_u64(r) : REGISTERED[mon_below(r, sizeof(REGISTERED) / sizeof(REGISTERED[0]))];
+        if (tagno == 55799 && s_nel == 0) {
+            mon_flag(F_SELF_DESCRIBED_FIRST);
+        }
+        emit_head(K_TAG, AWS_CBOR_TYPE_TAG, 6, tagno, depth);
         gen_item(r, depth + 1);
     } else if (pick < 91) {
         size_t n = (size_t)mon_below(r, 5);
